@@ -16,6 +16,9 @@ Parts:
                undefined element 063254 / undefined sequence 363254 substituted at every descriptor position;
                declared length of section 1..4 decreased / increased by 1, 2, 3/4 and 100 (total length intact).
              x {full, metadata-only} x {continue_on_error, stop on error}.
+  decoder-history  every (message, fault) x an earlier operation on the SAME decoder object (a decode that ignores value
+             expectations, a metadata-only decode, another edition, a continue-on-error scan, a filtered scan) x 4 modes:
+             the scan must deliver what a fresh decoder delivers.
   cli        `pybufrkit decode -m [--continue-on-error]` on damaged files: an "Error:" line, no traceback.
 Oracle: the harness knows which messages were damaged and where.
 """
@@ -266,13 +269,13 @@ def faults_for(b):
 SEPS = [b'', b'\r\r\n042\r\r\nISMD01 OKPR 010000\r\r\n']
 
 
-def scan(stream, info_only, cont):
+def scan(stream, info_only, cont, dec=None):
     """-> (list of yielded byte strings, terminating exception or None)"""
     from pybufrkit.decoder import generate_bufr_message
     out = []
     with contextlib.redirect_stderr(io.StringIO()):
         try:
-            for m in generate_bufr_message(decoder(), stream, info_only=info_only, continue_on_error=cont,
+            for m in generate_bufr_message(dec or decoder(), stream, info_only=info_only, continue_on_error=cont,
                                            wire_template_data=False):
                 out.append(m.serialized_bytes)
         except Exception as e:
@@ -387,6 +390,70 @@ def run_streams(args):
 
 
 # ------------------------------------------------------------------------------------------
+# what ONE decoder object did before must not weaken the detection of damage
+PRE_OPS = ['none', 'ignore-expectation:good', 'ignore-expectation:damaged', 'info-only:good', 'info-only:ed4', 'scan-continue',
+           'full:ed4', 'filter-scan']
+
+
+def _pre(dec, op, good, dmg, ed4):
+    from pybufrkit.decoder import generate_bufr_message
+    with contextlib.redirect_stderr(io.StringIO()):
+        try:
+            if op == 'ignore-expectation:good':
+                dec.process(good, ignore_value_expectation=True, wire_template_data=False)
+            elif op == 'ignore-expectation:damaged':
+                dec.process(dmg, ignore_value_expectation=True, wire_template_data=False)
+            elif op == 'info-only:good':
+                dec.process(good, info_only=True)
+            elif op == 'info-only:ed4':
+                dec.process(ed4, info_only=True)
+            elif op == 'full:ed4':
+                dec.process(ed4, wire_template_data=False)
+            elif op == 'scan-continue':
+                list(generate_bufr_message(dec, good + dmg + good, continue_on_error=True, wire_template_data=False))
+            elif op == 'filter-scan':
+                list(generate_bufr_message(dec, ed4 + good, filter_expr='${%edition} > 0', continue_on_error=True,
+                                           wire_template_data=False))
+        except Exception:
+            pass
+
+
+def run_history(mis):
+    """for every (message, fault, earlier operation on the same decoder): the scan of [good, damaged, good] in the four
+    modes gives what a fresh decoder gives (which the streams part judges against the known damage)"""
+    from pybufrkit.decoder import Decoder
+    p = Partial()
+    P = stream_pool()
+    ed4 = P[0][1]
+    for mi in mis:
+        name, b, faults = P[mi]
+        good = P[(mi + 1) % len(P)][1]
+        for lab, cls, dmg in faults:
+            stream = good + dmg + good
+            ref = {}
+            for op in PRE_OPS:
+                for info_only in (False, True):
+                    for cont in (True, False):
+                        dec = Decoder()
+                        _pre(dec, op, good, dmg, ed4)
+                        got, exc = scan(stream, info_only, cont, dec)
+                        obs = (tuple(got), type(exc).__name__ if exc is not None else None)
+                        p.n['exec'] += 1
+                        p.n['edges'] += 1
+                        if op == 'none':
+                            ref[(info_only, cont)] = obs
+                            p.outcome((cls, info_only, cont, len(got), obs[1]))
+                        elif obs != ref[(info_only, cont)]:
+                            p.violation('history|%s|%s|%s' % (op, cls, 'info' if info_only else 'full'),
+                                        {'message': mi, 'fault': lab, 'pre': op, 'info_only': info_only, 'cont': cont},
+                                        'after %s on the same decoder the scan of [good, %s-damaged, good] delivers %r / %s; a '
+                                        'fresh decoder delivers %r / %s' % (op, lab, [len(x) for x in obs[0]], obs[1],
+                                                                            [len(x) for x in ref[(info_only, cont)][0]],
+                                                                            ref[(info_only, cont)][1]))
+        p.n['nodes'] += 1
+    return p
+
+
 def run_cli_part(_):
     from mc.engine.cli import run_cli
     p = Partial()
@@ -432,6 +499,10 @@ def replay(part, case):
                 return []
         p = run_trailing([(case['name'], case['index'], m)])
         return [{'sig': v['sig'], 'detail': v['detail']} for v in p.viol if v['case']['trail'] == case['trail']]
+    if part == 'decoder-history':
+        p = run_history([case['message']])
+        return [{'sig': v['sig'], 'detail': v['detail']} for v in p.viol
+                if all(v['case'][k] == case[k] for k in ('message', 'fault', 'pre', 'info_only', 'cont'))]
     if part == 'cli':
         p = run_cli_part(None)
         return [{'sig': v['sig'], 'detail': v['detail']} for v in p.viol
@@ -493,6 +564,9 @@ def main(tier, seed):
         rep.add_part('streams-j%d-d%d-%s' % (j, bound, menu), p,
                      bounds={'messages_in_stream': j, 'max_damaged': bound, 'pool': len(idx), 'menu': menu,
                              'faults_per_message': nf})
+    p = merge_all(run_shards(run_history, [[i] for i in idx]))
+    rep.add_part('decoder-history', p, bounds={'pool': len(idx), 'faults': 'full menu', 'earlier_operations': PRE_OPS,
+                                               'modes': 4, 'stream': '[good, damaged, good]'})
     p = run_cli_part(None)
     p.n['nodes'], p.n['edges'] = p.n['exec'] + 1, p.n['exec']
     rep.add_part('cli', p, bounds={'invocations': p.n['exec']})
